@@ -72,6 +72,9 @@ pub struct Stats {
     pub hook_cached: u64,
     pub solver_ns: u128,
     pub entail_queries: u64,
+    /// answers of the solver that an independent transitive-closure audit contradicted (solver restarted and re-asked)
+    pub solver_disagreements: u64,
+    pub solver_restarts: u64,
 }
 
 pub struct Pending {
@@ -152,6 +155,9 @@ pub struct Rt {
     pub active: bool,
     pub notes: Vec<String>,
     pub path_hook_calls: u64,
+    /// audit: reach[i] bit j set <=> d_i < d_j follows from the asserted literals (transitive closure)
+    reach: Vec<u64>,
+    paths_on_this_solver: u64,
 }
 
 thread_local! {
@@ -164,11 +170,16 @@ impl Rt {
         Rt {
             z3, mode, syms: HashMap::new(), known: HashMap::new(), lits: vec![], prefix: vec![], prefix_sigs: vec![],
             points: vec![], choices: vec![], pending: vec![], stats: Stats::default(), nonce, active: false, notes: vec![],
-            path_hook_calls: 0,
+            path_hook_calls: 0, reach: vec![], paths_on_this_solver: 0,
         }
     }
 
     pub fn begin(&mut self, p: Pending) {
+        // a long-lived incremental session is restarted now and then (a rare wrong answer was observed after
+        // ~10^6 push/pop rounds on one z3 4.8.12 process; every answer is also audited, see `audited`)
+        self.paths_on_this_solver += 1;
+        if self.z3.is_some() && self.paths_on_this_solver > 20_000 { self.z3 = Some(Z3::new()); self.paths_on_this_solver = 0; self.stats.solver_restarts += 1; }
+        self.reach.clear();
         if let Some(z) = self.z3.as_mut() { z.send("(push)"); }
         self.syms.clear();
         self.known.clear();
@@ -203,6 +214,8 @@ impl Rt {
             z.send(&s);
         }
         self.syms.insert(*d, i);
+        self.reach.push(0);
+        if i >= 64 { inconclusive("more than 64 digest symbols on one path"); }
         i
     }
 
@@ -237,7 +250,8 @@ impl Rt {
         if feasible.len() == 1 { return feasible[0]; }
         let pos = self.points.len();
         let v = if pos < self.prefix.len() {
-            if self.prefix_sigs[pos] != sig || !feasible.contains(&self.prefix[pos]) {
+            if self.prefix_sigs.len() <= pos { /* debug replay without recorded signatures */ }
+            else if self.prefix_sigs[pos] != sig || !feasible.contains(&self.prefix[pos]) {
                 inconclusive(&format!(
                     "scenario is not deterministic under re-execution: at decision {} expected {:?}, saw {:?}",
                     pos, self.prefix_sigs[pos], sig
@@ -266,6 +280,36 @@ impl Rt {
         self.lits.push((i, j));
         self.known.insert((i, j), true);
         self.known.insert((j, i), false);
+        let add = (1u64 << j) | self.reach[j];
+        for a in 0..self.reach.len() { if a == i || self.reach[a] >> i & 1 == 1 { self.reach[a] |= add; } }
+    }
+
+    /// rebuild the solver session for the current path from the recorded symbols and literals
+    fn resync(&mut self) {
+        let mut z = Z3::new();
+        z.send("(push)");
+        for i in 0..self.syms.len() {
+            z.send(&format!("(declare-const d{} Int)", i));
+            if i > 0 { let mut t = String::from("(assert (and"); for j in 0..i { t += &format!(" (not (= d{} d{}))", i, j); } t += "))"; z.send(&t); }
+        }
+        for (i, j) in &self.lits { z.send(&format!("(assert (< d{} d{}))", i, j)); }
+        self.z3 = Some(z);
+        self.paths_on_this_solver = 0;
+        self.stats.solver_restarts += 1;
+    }
+
+    /// feasibility of (d_i < d_j, d_j < d_i) under the path condition: the solver's answer, audited against the
+    /// transitive closure of the literals (for a strict order on distinct values, i<j is feasible iff j<i is not entailed)
+    fn audited(&mut self, i: usize, j: usize) -> (bool, bool) {
+        let expect = (self.reach[j] >> i & 1 == 0, self.reach[i] >> j & 1 == 0);
+        for attempt in 0..2 {
+            let got = self.check2(&format!("(assert (< d{} d{}))", i, j), &format!("(assert (< d{} d{}))", j, i));
+            if got == expect { return got; }
+            self.stats.solver_disagreements += 1;
+            eprintln!("SOLVER-AUDIT: z3 answered {:?} for d{} ? d{} where the closure of {:?} gives {:?} (attempt {}); restarting the solver", got, i, j, self.lits, expect, attempt);
+            self.resync();
+        }
+        inconclusive("solver and closure audit disagree twice on the same query");
     }
 
     pub fn cmp(&mut self, a: &[u8; 32], b: &[u8; 32]) -> Ordering {
@@ -277,7 +321,7 @@ impl Rt {
             self.stats.hook_cached += 1;
             return if *k { Ordering::Less } else { Ordering::Greater };
         }
-        let (lt, gt) = self.check2(&format!("(assert (< d{} d{}))", i, j), &format!("(assert (< d{} d{}))", j, i));
+        let (lt, gt) = self.audited(i, j);
         if !lt && !gt { inconclusive("path condition became unsatisfiable"); }
         if !(lt && gt) {
             self.stats.pruned += 1;
@@ -299,7 +343,7 @@ impl Rt {
         };
         if let Some(k) = self.known.get(&(i, j)) { return Some(*k); }
         self.stats.entail_queries += 1;
-        let (can_ge, can_lt) = self.check2(&format!("(assert (< d{} d{}))", j, i), &format!("(assert (< d{} d{}))", i, j));
+        let (can_lt, can_ge) = self.audited(i, j);
         if !can_ge { self.known.insert((i, j), true); self.known.insert((j, i), false); return Some(true); }
         if !can_lt { self.known.insert((i, j), false); self.known.insert((j, i), true); return Some(false); }
         None
